@@ -76,7 +76,7 @@ func c14r1(r *R) {
 	// New creates a fresh resolver each time
 	np := r.fn("pac", "NewProxyResolverPool")
 	fresh := false
-	for _, lit := range np.AnonFuncs {
+	for _, lit := range anonFuncs(np) {
 		for range calls(lit, nameIs("pac.NewProxyResolver")) {
 			fresh = true
 		}
